@@ -47,6 +47,8 @@ var expected = map[string][]string{
 	"wg-reuse":          {"4"},
 	"handoff-chain":     {"9"},
 	"select-loop-drain": {"2 true"},
+	"timer-vs-stop":     {"stop", "timer"},
+	"timer-stopped":     {"quiet"},
 }
 
 func explore(name string, f func() string, cache bool, bound int) ([]string, *vsched.Stats) {
